@@ -27,7 +27,9 @@
 EXTENDS Catalog
 
 CONSTANTS MeshSel,       \* subset of 1..Len(MeshList)
-          RouteSel       \* subset of Routes
+          RouteSel,      \* subset of Routes
+          Mech           \* "copies": a decoder works on its own copy of the input (the specification);
+                         \* "aliases": it decodes platform-integer tables in place (shown to violate InputKept)
 
 NANCODE  == -99999       \* stands for NaN in float storage
 BIGFILL  == -88888       \* stands for the platform fill value (INT_FILL_VALUE) in the source
@@ -245,34 +247,46 @@ TopoDecodeTable(src, T) ==
         IF src.fill_value # NOFILL /\ T[r][j] = src.fill_value THEN PAD ELSE T[r][j] - src.start_index ] ]
 
 (* ---- MPAS primal: 1-based, 0 = missing, nEdgesOnCell authoritative ------------------ *)
-MpasDs(m) == { d \in [ pad : { "zeros", "repeat" }, extras : { "none", "edges" }, xyz : { "no", "yes" } ] :
+\* pad: what the slots beyond nEdgesOnCell hold - the MPAS specification only gives meaning to the first
+\* nEdgesOnCell entries: 0, the last valid entry repeated, or one past the dimension (n + 1), all seen in real files.
+\* store: storage of index tables / coordinates (real files: int32 / float64)
+MpasStores == { "i32f64", "i64f64", "u32f32" }
+MpasDs(m) == { d \in [ pad : { "zeros", "repeat", "dimsize" }, extras : { "none", "edges" }, xyz : { "no", "yes" }, store : MpasStores ] :
                  Uniform(m) => d.pad = "zeros" }
-MpasPadRows(rows, w, pad) ==         \* rows 0-based unpadded; stored 1-based
+MpasPadRows(rows, w, pad, n) ==      \* rows 0-based unpadded; stored 1-based; n: size of the dimension indexed
     [ r \in 1..Len(rows) |-> [ j \in 1..w |->
         IF j <= Len(rows[r]) THEN rows[r][j] + 1
-        ELSE IF pad = "zeros" THEN 0 ELSE rows[r][Len(rows[r])] + 1 ] ]
+        ELSE IF pad = "zeros" \/ Len(rows[r]) = 0 THEN 0
+        ELSE IF pad = "repeat" THEN rows[r][Len(rows[r])] + 1 ELSE n + 1 ] ]
+\* neighbour across side j of every cell, -1 where the side is on the boundary (absent cell: 0 in ITS slot)
+MpasCellsOnCell(faces) == [ f \in 1..Len(faces) |-> [ j \in 1..Len(faces[f]) |->
+                             LET o == FacesOfSide(faces, SideAt(faces[f], j)) \ { f }
+                             IN IF o = {} THEN -1 ELSE (CHOOSE g \in o : TRUE) - 1 ] ]
 MpasStored(m, d) ==
     LET E  == SrcEdges(m.faces)
         NF == SrcNodeFaces(m.faces, NN(m))
         deg == IF MaxLen(NF) = 0 THEN 1 ELSE MaxLen(NF)
-    IN [ route |-> "mpas", xyz |-> d.xyz = "yes",
-         verticesOnCell |-> MpasPadRows(m.faces, Wd(m), d.pad),
+        ed == d.extras = "edges"
+    IN [ route |-> "mpas", xyz |-> d.xyz = "yes", store |-> d.store,
+         verticesOnCell |-> MpasPadRows(m.faces, Wd(m), d.pad, NN(m)),
          nEdgesOnCell   |-> [ f \in 1..Len(m.faces) |-> Len(m.faces[f]) ],
          cellsOnVertex  |-> EncTable(NF, deg, 1, 0),
-         centres        |-> d.extras = "edges",
-         verticesOnEdge |-> IF d.extras = "edges" THEN EncTable(E, 2, 1, 0) ELSE <<>>,
-         edgesOnCell    |-> IF d.extras = "edges" THEN MpasPadRows(SrcFaceEdges(m.faces, E), Wd(m), d.pad) ELSE <<>>,
-         cellsOnEdge    |-> IF d.extras = "edges" THEN EncTable(SrcEdgeFaces(m.faces, E), 2, 1, 0) ELSE <<>>,
-         areaCell       |-> IF d.extras = "edges" THEN AreaTags(Len(m.faces)) ELSE <<>>,
-         dvEdge         |-> IF d.extras = "edges" THEN DvTags(Len(E)) ELSE <<>>,
-         dcEdge         |-> IF d.extras = "edges" THEN DcTags(Len(E)) ELSE <<>> ]
+         centres        |-> ed,
+         verticesOnEdge |-> IF ed THEN EncTable(E, 2, 1, 0) ELSE <<>>,
+         edgesOnCell    |-> IF ed THEN MpasPadRows(SrcFaceEdges(m.faces, E), Wd(m), d.pad, Len(E)) ELSE <<>>,
+         cellsOnEdge    |-> IF ed THEN EncTable(SrcEdgeFaces(m.faces, E), 2, 1, 0) ELSE <<>>,
+         cellsOnCell    |-> IF ed THEN MpasPadRows(MpasCellsOnCell(m.faces), Wd(m), d.pad, Len(m.faces)) ELSE <<>>,
+         areaCell       |-> IF ed THEN AreaTags(Len(m.faces)) ELSE <<>>,
+         dvEdge         |-> IF ed THEN DvTags(Len(E)) ELSE <<>>,
+         dcEdge         |-> IF ed THEN DcTags(Len(E)) ELSE <<>> ]
 MpasDecodeCounted(T, cnt) ==
     [ r \in 1..Len(T) |-> [ j \in 1..Len(T[r]) |-> IF j <= cnt[r] /\ T[r][j] # 0 THEN T[r][j] - 1 ELSE PAD ] ]
 MpasDecodeZeros(T) ==
     [ r \in 1..Len(T) |-> [ j \in 1..Len(T[r]) |-> IF T[r][j] # 0 THEN T[r][j] - 1 ELSE PAD ] ]
 
 (* ---- MPAS dual: one triangle per MPAS vertex, its corners are the cells around it ----- *)
-MpasDualDs(m) == { d \in [ xyz : { "no", "yes" }, extras : { "none", "edges" } ] : m.xrows # <<>> => d.extras = "none" }
+MpasDualDs(m) == { d \in [ xyz : { "no", "yes" }, extras : { "none", "edges" }, pad : { "zeros", "repeat", "dimsize" }, store : MpasStores ] :
+                     m.xrows # <<>> => d.extras = "none" }
 \* the stored rows: all vertices of the file; an absent cell is 0
 DualRows(m) == IF m.xrows # <<>> THEN m.xrows ELSE m.faces
 MpasDualStored(m, d) ==
@@ -280,9 +294,9 @@ MpasDualStored(m, d) ==
         NF == [ n \in 1..NN(m) |-> SetToSortSeq({ r - 1 : r \in { q \in 1..Len(rows) : \E j \in 1..3 : rows[q][j] = n - 1 } }, Lt) ]
         E  == SrcEdges(m.faces)
         ed == d.extras = "edges"
-    IN [ route |-> "mpas_dual", xyz |-> d.xyz = "yes",
+    IN [ route |-> "mpas_dual", xyz |-> d.xyz = "yes", store |-> d.store,
          cellsOnVertex  |-> [ r \in 1..Len(rows) |-> [ j \in 1..3 |-> rows[r][j] + 1 ] ],       \* -1 -> 0
-         verticesOnCell |-> EncTable(NF, MaxLen(NF), 1, 0),
+         verticesOnCell |-> MpasPadRows(NF, MaxLen(NF), d.pad, Len(rows)),
          nEdgesOnCell   |-> [ n \in 1..NN(m) |-> Len(NF[n]) ],
          centres        |-> TRUE,
          \* on the dual an edge's nodes are the two cells, its faces the two vertices
@@ -521,7 +535,8 @@ Carried(m, route, d) ==
     IN CASE route = "ugrid"     -> Opt(d.extras = "edges", edges @@ ce) @@ Opt(d.extras = "edges" /\ (d.fill # "none" \/ IsClosed(m)), ef)
                                    @@ Opt(d.extras = "edge_only", eo)
          [] route = "topology"  -> Opt(d.extras = "edges", edges) @@ Opt(d.extras = "edge_only", eo)
-         [] route = "mpas"      -> nf @@ Opt(d.extras = "edges", edges @@ ef @@ ce @@ ar @@ dp)
+         [] route = "mpas"      -> nf @@ Opt(d.extras = "edges", edges @@ ef @@ ce @@ ar @@ dp @@
+                                         [ face_face |-> PadMax([ f \in 1..Len(F) |-> SelectSeq(MpasCellsOnCell(F)[f], LAMBDA x : x # -1) ]) ])
          [] route = "mpas_dual" -> IF m.xrows # <<>> THEN EmptyFn
                                    ELSE nf @@ ce @@ Opt(d.extras = "edges", edges @@ ef @@ ar @@ dd)
          [] route = "scrip"     -> ce @@ ar
@@ -552,10 +567,41 @@ Tags(m, route, d) ==
                          IN \E T \in { src.face_node, src.edge_node, src.face_edge, src.edge_face } : off(T) \/ padded(T) ]
 
 (* ======================================================================= *)
-(* state space: (mesh, route) then one dialect each                        *)
+(* decoding a shared input more than once                                  *)
 (* ======================================================================= *)
-VARIABLES mi, route, d
-vars == << mi, route, d >>
+\* The options with which the SAME input object is decoded, one after the other.  An MPAS dataset holds two
+\* grids (primal: the cells; dual: the vertices): it is decoded twice with the route's own option and then
+\* with the other one (possible when the source has the other grid's node coordinates).
+Plan(m, route, d) ==
+    CASE route = "mpas"      -> IF d.extras = "edges" THEN << "primal", "primal", "dual" >> ELSE << "primal", "primal" >>
+      [] route = "mpas_dual" -> << "dual", "dual", "primal" >>
+      [] OTHER               -> << "same", "same" >>
+\* what decoding the stored source with an option means - a function of the source alone
+DecodeAs(src, opt) ==
+    CASE opt = "primal" -> MpasDecodeCounted(src.verticesOnCell, src.nEdgesOnCell)
+      [] opt = "dual"   -> MpasDualDecode(src.cellsOnVertex)
+      [] OTHER          -> Decode(src)
+\* is the k-th result judged as faces of the case's mesh (by position) or as the other grid's index table?
+StepMode(route, opt) == IF opt = "same" \/ (route = "mpas" /\ opt = "primal") \/ (route = "mpas_dual" /\ opt = "dual")
+                        THEN "faces" ELSE "ids"
+\* the two mechanisms.  "aliases" transcribes a decoder that converts a table already stored as the platform
+\* integer in place: afterwards the shared input holds zero-based indices and fill values.
+InPlace(T, dec) == [ r \in 1..Len(T) |-> [ j \in 1..Len(T[r]) |-> IF dec[r][j] = PAD THEN BIGFILL ELSE dec[r][j] ] ]
+InputAfter(inp, opt) ==
+    IF Mech = "aliases" /\ inp.route \in { "mpas", "mpas_dual" } /\ inp.store = "i64f64"
+    THEN [ inp EXCEPT !.verticesOnCell = InPlace(@, MpasDecodeCounted(inp.verticesOnCell, inp.nEdgesOnCell)),
+                      !.cellsOnVertex = InPlace(@, MpasDecodeZeros(inp.cellsOnVertex)) ]
+    ELSE inp
+
+(* ======================================================================= *)
+(* state space: (mesh, route), one dialect each, then Decode ; Decode ...   *)
+(* over the shared input                                                    *)
+(* ======================================================================= *)
+VARIABLES mi, route, d,
+          nd,      \* number of decodings done
+          inp,     \* what the shared input object holds now
+          outs     \* the decoded face tables so far
+vars == << mi, route, d, nd, inp, outs >>
 NoD == [ none |-> TRUE ]
 
 M == MeshList[mi]
@@ -563,12 +609,26 @@ M == MeshList[mi]
 Init == /\ mi \in MeshSel
         /\ route \in (RouteSel \cup { "mesh" })
         /\ (route = "mesh" \/ Applies(MeshList[mi], route))
-        /\ d = NoD
-Next == /\ d = NoD /\ route # "mesh"
-        /\ d' \in DialectsOf(M, route)
-        /\ UNCHANGED << mi, route >>
+        /\ d = NoD /\ nd = 0 /\ inp = NoD /\ outs = <<>>
+Choose == /\ d = NoD /\ route # "mesh"
+          /\ d' \in DialectsOf(M, route)
+          /\ inp' = StoredSrc(M, route, d')
+          /\ UNCHANGED << mi, route, nd, outs >>
+DecodeStep == /\ d # NoD /\ nd < Len(Plan(M, route, d))
+              /\ LET opt == Plan(M, route, d)[nd + 1] IN
+                   /\ outs' = Append(outs, DecodeAs(inp, opt))       \* reads what the input holds NOW
+                   /\ inp' = InputAfter(inp, opt)
+              /\ nd' = nd + 1
+              /\ UNCHANGED << mi, route, d >>
+Next == Choose \/ DecodeStep
 
-IsCase == d # NoD
+IsCase == d # NoD /\ nd = 0         \* the per-source theorems and the emission are evaluated once per source
+
+\* decoding never changes the input ...
+InputKept == d # NoD => inp = StoredSrc(M, route, d)
+\* ... and every decoding of the shared input yields what the source means under that option, however many
+\* decodings went before (so equal options give equal results)
+DecodeRepeatable == d # NoD => \A i \in 1..Len(outs) : outs[i] = DecodeAs(StoredSrc(M, route, d), Plan(M, route, d)[i])
 
 (* ---- the model theorems -------------------------------------------------------------------- *)
 MeshOK == route = "mesh" => MeshWellFormed(M)
@@ -618,6 +678,9 @@ ExtrasRoundTrip == IsCase =>
               /\ (Has(c, "edge_node") => MpasDecodeZeros(src.verticesOnEdge) = c.edge_node)
               /\ (Has(c, "face_edge") => MpasDecodeCounted(src.edgesOnCell, src.nEdgesOnCell) = c.face_edge)
               /\ (Has(c, "edge_face") => MpasDecodeZeros(src.cellsOnEdge) = c.edge_face)
+              /\ (Has(c, "face_face") => LET T == MpasDecodeCounted(src.cellsOnCell, src.nEdgesOnCell) IN
+                     Len(T) = Len(c.face_face) /\ \A r \in 1..Len(T) : \A g \in 0..(Len(T) - 1) :
+                        CountIn(T[r], g) = CountIn(c.face_face[r], g))
          [] route = "mpas_dual" ->
               /\ (Has(c, "node_face") => MpasDecodeCounted(src.verticesOnCell, src.nEdgesOnCell) = c.node_face)
               /\ (Has(c, "edge_node") => MpasDecodeZeros(src.cellsOnEdge) = c.edge_node)
@@ -646,6 +709,9 @@ EmitCase == IsCase =>
                         carried |-> Carried(M, route, d),
                         carry_exact |-> CarryExact(route, d),
                         complete |-> Complete(M, route, d),
+                        plan |-> Plan(M, route, d),
+                        modes |-> [ i \in 1..Len(Plan(M, route, d)) |-> StepMode(route, Plan(M, route, d)[i]) ],
+                        exps |-> [ i \in 1..Len(Plan(M, route, d)) |-> DecodeAs(StoredSrc(M, route, d), Plan(M, route, d)[i]) ],
                         tags |-> Tags(M, route, d),
                         nn |-> NN(M) ] >>)
 =============================================================================
